@@ -51,8 +51,8 @@ def plan(tier, seed):
                 axes = [int(a - nd) if rng.random() < 0.4 else int(a) for a in ax]
             P.add("wav", name=name, shape=shape, axes=axes,
                   level=pick(rng, [None, None, 1, 2, 3]),
-                  dt=pick(rng, ["complex128", "float64"]), via=pick(rng, ["linop", "linop",
-                                                                          "func"]))
+                  dt=pick(rng, ["complex128", "float64", "complex128", "float64", "complex64",
+                                "float32"]), via=pick(rng, ["linop", "linop", "func"]))
     # histories: several operators for the same (shape, wavelet, level) but different axes in
     # one process, in random order - anything the library remembers between calls (shape or
     # slice layouts) must be keyed by all of the parameters
@@ -113,7 +113,7 @@ def run_one(case):
                              else "pos", level, dt.name, case["via"],
                              "short" if any(shape[a] < flen for a in tr) else "long"]))
     wit = dict(case)
-    tol = 1e-9
+    tol = 1e-9 if dt in (np.float64, np.complex128) else 2e-4
     with warnings.catch_warnings():
         warnings.simplefilter("ignore")
         try:
